@@ -121,6 +121,14 @@ func VerifDir() string {
 	return "/verif"
 }
 
+// EvidenceDir is where evidence, parts and replay files go (env VERIF_EVIDENCE, default <verif>/evidence).
+func EvidenceDir() string {
+	if d := os.Getenv("VERIF_EVIDENCE"); d != "" {
+		return d
+	}
+	return filepath.Join(VerifDir(), "evidence")
+}
+
 func envInt(k string, def int) int {
 	if s := os.Getenv(k); s != "" {
 		if n, err := strconv.Atoi(s); err == nil {
@@ -345,10 +353,10 @@ func Main[C any](t *testing.T, s Spec[C]) {
 	shard := envInt("VERIF_SHARD", 0)
 	dir := VerifDir()
 	ev := &Ev[C]{spec: &s, hashes: map[uint64]struct{}{}, Classes: map[string]int64{}, Notes: map[string]interface{}{},
-		replayDir: filepath.Join(dir, "evidence", "replay"), shard: shard, seed: seed}
+		replayDir: filepath.Join(EvidenceDir(), "replay"), shard: shard, seed: seed}
 	partPath := os.Getenv("VERIF_PART")
 	if partPath == "" {
-		partPath = filepath.Join(dir, "evidence", "parts", fmt.Sprintf("%s-%d.json", s.ID, shard))
+		partPath = filepath.Join(EvidenceDir(), "parts", fmt.Sprintf("%s-%d.json", s.ID, shard))
 	}
 	completed := false
 	writePart := func() {
